@@ -14,8 +14,8 @@ T_QUICK, T_THOROUGH = 70, 1500
 OPS = ["set-scalar", "set-string", "set-array", "set-array-element", "set-nested", "set-ref-same", "set-ref-other",
        "copy", "move", "move-refused-nested", "move-refused-refs", "write-through-shared"]
 FLOORS = {"histories": 1500, "steps": 15000, "object_comparisons": 60000, "renamed_fields_compared": 5000,
-          "growths": 300, "three_level_families": 300, "nested_copy_duplicated_referent": 100,
-          "copy_duplicated_referent": 150}
+          "growths": 300, "three_level_families": 300, "nested_copy_duplicated_referent": 40,
+          "copy_duplicated_referent": 60}
 FLOORS.update({"op:" + o: 250 for o in OPS})
 RULE = ("generated hybrid class families (2-3 levels: scalars, strings, numeric arrays of any shape, nested hybrids, "
         "references to hybrids, renamed fields) in two buffers; histories of <=20 steps over {set scalar/string/array/"
